@@ -103,6 +103,10 @@ def run_actions(desc, ctx):
             args = {k: args.get(k, ['x']) for k in keys}
             if keys != uris:
                 ctx.count('mon.argument_dictionaries_in_another_order')
+        if args is not None and rnd.random() < 0.5:
+            # the entries are sequences of arguments: tuples as often as lists
+            args = {k: (tuple(v) if rnd.random() < 0.7 else v) for k, v in args.items()}
+            ctx.count('mon.argument_dictionaries_with_tuple_entries')
         for si in range(desc['S'] // 4 if n >= 4 else desc['S']):
             log = []
             fac = Factory(log, set())
